@@ -120,7 +120,7 @@ def oklch_to_rgb(oklch: Tuple[float, float, float]) -> Tuple[int, int, int]:
     L, C, H = oklch
 
     # Step 1: OKLCH to OKLab
-    H_rad = H * math.pi / 180.0
+    H_rad = math.radians(H)  # (H * math.pi overflows for a huge but finite hue)
     a = C * math.cos(H_rad)
     b = C * math.sin(H_rad)
 
